@@ -207,23 +207,31 @@ pub fn gen_sim_case(prop: &str, r: &mut SplitMix64) -> SimCase {
     let ns = if no_machines { 0 } else { r.range(0, 2) as usize };
     let mut mc: Vec<Machine> = (0..nc).map(|_| gen_machine(r, &mp)).collect();
     let mut ms: Vec<Machine> = (0..ns).map(|_| gen_machine(r, &mp)).collect();
-    // directed part: role machines whose timers collide and overlap
+    // directed part: role machines whose timers collide and overlap (one side, sometimes both)
+    let mut directed = false;
     if !no_machines && r.chance(1, 2) {
-        let roles: &[(Role, Option<bool>)] = match prop {
-            "C16" => &[(Role::Blocker, Some(false)), (Role::Blocker, Some(true)), (Role::Padder, Some(true)), (Role::Padder, None)],
-            "C17" => &[(Role::Blocker, None), (Role::Padder, None), (Role::Padder, None), (Role::Canceller, None)],
-            "C18" => &[(Role::Timer, None), (Role::Timer, None), (Role::Canceller, None), (Role::Padder, None)],
-            _ => &[(Role::Blocker, None), (Role::Padder, None), (Role::Timer, None), (Role::Canceller, None)],
+        directed = true;
+        let roles: &[(Role, Option<bool>, Option<bool>)] = match prop {
+            "C15" => &[(Role::Blocker, None, None), (Role::Padder, Some(true), Some(true)), (Role::Padder, None, None), (Role::Blocker, None, None)],
+            "C16" => &[(Role::Blocker, Some(false), None), (Role::Blocker, Some(true), None), (Role::Padder, Some(true), None), (Role::Padder, None, None)],
+            "C17" => &[(Role::Blocker, None, None), (Role::Padder, None, None), (Role::Padder, None, None), (Role::Canceller, None, None)],
+            "C18" => &[(Role::Timer, None, None), (Role::Timer, None, None), (Role::Canceller, None, None), (Role::Padder, None, None)],
+            _ => &[(Role::Blocker, None, None), (Role::Padder, None, None), (Role::Timer, None, None), (Role::Canceller, None, None)],
         };
-        let side = if r.chance(2, 3) { &mut mc } else { &mut ms };
-        side.clear();
-        let k = r.range(2, 4) as usize;
-        for i in 0..k {
-            let (role, by) = roles[i % roles.len()];
-            side.push(gen_role_machine(r, role, by));
+        let which = r.below(3); // 0 client, 1 server, 2 both
+        for (k, side) in [&mut mc, &mut ms].into_iter().enumerate() {
+            if which == 2 || which == k as u64 {
+                side.clear();
+                let cnt = r.range(2, 4) as usize;
+                let off = r.below(4) as usize;
+                for i in 0..cnt {
+                    let (role, by, rp) = roles[(i + off * (k % 2)) % roles.len()];
+                    side.push(gen_role_machine_rp(r, role, by, rp));
+                }
+            }
         }
     }
-    let n = r.range(1, 40) as usize;
+    let n = if directed && r.chance(1, 2) { r.range(1, 6) as usize } else { r.range(1, 40) as usize };
     let mut t = *r.pick(&[0u64, 0, 1000, 1_000_000]);
     let mut trace = vec![];
     for _ in 0..n {
@@ -249,4 +257,96 @@ pub fn gen_sim_case(prop: &str, r: &mut SplitMix64) -> SimCase {
         only_network: r.chance(1, 5),
         seed: r.next(),
     }
+}
+
+/// Fixed regression cases that run before the generated ones: the witnesses
+/// of the findings F7, F8, F9, F10, F14 (see known_findings.json).
+pub fn corpus(prop: &str) -> Vec<SimCase> {
+    use enum_map::enum_map;
+    use maybenot::action::Action;
+    use maybenot::event::Event;
+    use maybenot::state::{State, Trans};
+    let two = |ev: Event, action: Action| -> Machine {
+        let mut t0 = enum_map! { _ => vec![] };
+        t0[ev] = vec![Trans(1, 1.0)];
+        let s0 = State::new(t0);
+        let mut s1 = State::new(enum_map! { _ => vec![] });
+        s1.action = Some(action);
+        Machine::new(u64::MAX, 0.0, u64::MAX, 0.0, vec![s0, s1]).unwrap()
+    };
+    let block = |tmo: f64, dur: f64, bypass: bool, replace: bool| Action::BlockOutgoing { bypass, replace, timeout: const_dist(tmo), duration: const_dist(dur), limit: None };
+    let pad = |tmo: f64, bypass: bool, replace: bool| Action::SendPadding { bypass, replace, timeout: const_dist(tmo), limit: None };
+    let base = |mc: Vec<Machine>, trace: Vec<(u64, bool)>| SimCase {
+        mc,
+        ms: vec![],
+        fr: [1.0, 1.0, 1.0, 1.0],
+        delay_ns: 1000,
+        pps: None,
+        via_parse: true,
+        trace,
+        max_trace: 0,
+        max_iter: 200,
+        cont: false,
+        only_client: false,
+        only_network: false,
+        seed: 7,
+    };
+    let mut v = vec![];
+    match prop {
+        "C16" => {
+            // F8 (known): zero-duration blocks
+            v.push(base(vec![two(Event::NormalSent, block(0.0, 0.0, false, false))], vec![(0, true)]));
+            v.push(base(vec![two(Event::NormalSent, block(0.0, 0.0, false, true))], vec![(0, true), (5000, true)]));
+            // F10 (fixed): fail-closed block extended by a bypassable one, bypass padding during it
+            v.push(base(
+                vec![
+                    two(Event::TunnelRecv, block(100.0, 100.0, false, false)),
+                    two(Event::TunnelRecv, block(100.0, 1000.0, true, false)),
+                    two(Event::BlockingBegin, pad(0.0, true, false)),
+                ],
+                vec![(1000, false), (5_000_000, true)],
+            ));
+            // F14 (fixed): a bypassable replace-block due 50 us later must not release queued bypass padding early
+            v.push(base(
+                vec![
+                    two(Event::NormalSent, block(1.0, 100_000.0, false, true)),
+                    two(Event::BlockingBegin, block(50.0, 100.0, true, true)),
+                    two(Event::BlockingBegin, pad(0.0, true, false)),
+                ],
+                vec![(0, true), (5_000_000, true)],
+            ));
+        }
+        "C17" => {
+            // F14 (fixed): the action superseded by the released packet's trigger must not have fired.
+            // m1: BlockingBegin -> state 1 (bypassable replace-block in 50 us), TunnelSent -> state 2 (another in 20 us)
+            let m1 = {
+                let mut t0 = enum_map! { _ => vec![] };
+                t0[Event::BlockingBegin] = vec![Trans(1, 1.0)];
+                let mut t1 = enum_map! { _ => vec![] };
+                t1[Event::TunnelSent] = vec![Trans(2, 1.0)];
+                let s0 = State::new(t0);
+                let mut s1 = State::new(t1);
+                s1.action = Some(block(50.0, 100.0, true, true));
+                let mut s2 = State::new(enum_map! { _ => vec![] });
+                s2.action = Some(block(20.0, 100.0, true, true));
+                Machine::new(u64::MAX, 0.0, u64::MAX, 0.0, vec![s0, s1, s2]).unwrap()
+            };
+            v.push(base(
+                vec![two(Event::NormalSent, block(1.0, 100_000.0, false, true)), m1, two(Event::BlockingBegin, pad(0.0, true, false))],
+                vec![(0, true), (5_000_000, true)],
+            ));
+        }
+        "C18" => {
+            // F7 (fixed): zero-duration UpdateTimer with no timer running
+            v.push(base(vec![two(Event::NormalSent, Action::UpdateTimer { replace: false, duration: const_dist(0.0), limit: None })], vec![(0, true), (1000, true)]));
+        }
+        "C19" => {
+            // F9 (fixed): a pps limit that is a multiple of 2^32
+            let mut c = base(vec![], vec![(0, true), (1000, false)]);
+            c.pps = Some(1usize << 32);
+            v.push(c);
+        }
+        _ => {}
+    }
+    v
 }
